@@ -153,6 +153,8 @@ impl Target {
 pub struct WriteCfg {
     /// `None` = the writer's own default (10240)
     pub records_per_slice: Option<usize>,
+    /// 1 = what the real writer hard-codes; > 1 only together with `records_per_slice` (hook H4)
+    pub slices_per_container: usize,
     pub preserve_names: bool,
     pub pos_delta: bool,
     pub target: Target,
@@ -161,7 +163,7 @@ pub struct WriteCfg {
 
 impl Default for WriteCfg {
     fn default() -> Self {
-        WriteCfg { records_per_slice: None, preserve_names: true, pos_delta: true, target: Target::DefaultMap, enc: Enc::Gzip(6) }
+        WriteCfg { records_per_slice: None, slices_per_container: 1, preserve_names: true, pos_delta: true, target: Target::DefaultMap, enc: Enc::Gzip(6) }
     }
 }
 
@@ -186,8 +188,9 @@ impl WriteCfg {
 
     pub fn describe(&self) -> String {
         format!(
-            "records_per_slice={} preserve_read_names={} position_deltas={} encoder[{}]={}",
+            "records_per_slice={} slices_per_container={} preserve_read_names={} position_deltas={} encoder[{}]={}",
             self.records_per_slice.map(|n| n.to_string()).unwrap_or("default".into()),
+            self.slices_per_container,
             self.preserve_names,
             self.pos_delta,
             self.target.name(),
@@ -245,7 +248,7 @@ pub fn write_cram_to<W: std::io::Write>(
     }
     let mut w = b.build_from_writer(sink);
     if let Some(n) = cfg.records_per_slice {
-        w.verif_set_layout(n, 1);
+        w.verif_set_layout(n, cfg.slices_per_container.max(1));
     }
     classify(vmc::catch(|| w.write_header(header))).map_err(|f| ("header", f))?;
     for r in &bufs {
@@ -377,7 +380,7 @@ pub fn write_cram_ops(
     }
     let mut w = b.build_from_writer(Vec::new());
     if let Some(n) = cfg.records_per_slice {
-        w.verif_set_layout(n, 1);
+        w.verif_set_layout(n, cfg.slices_per_container.max(1));
     }
     let to_outcome = |r: Result<std::io::Result<()>, (String, String)>| match r {
         Ok(Ok(())) => OpOutcome::Ok,
